@@ -19,6 +19,7 @@ import Distill.Model.PageGroups
 import Distill.Model.PathPattern
 import Distill.Model.Filters
 import Distill.Model.TextRender
+import Distill.Model.MediaRender
 namespace Distill.Slices
 open Distill Distill.Proto
 
@@ -455,6 +456,41 @@ def dedupeSlice : P String := do
   let t ← node
   pure ("|".intercalate ((dedupNode t).elems.map (fun e => s!"{e.tag}:{attrsStr e.attrs}")))
 
+def optHex (o : Option (List Char)) : String :=
+  match o with
+  | some s => hex (String.ofList s)
+  | none => "P"
+
+/-- `mediarender kind tree hasCaption [captionTree] atoms nTbl (value abs absSet nURLs url*)* type id`
+(kind: 3 image, 4 figure, 5 video, 6 embed, 7 table) → `H=` HTML view, `T=` text view, `U=` image URLs -/
+def mediarenderSlice : P String := do
+  let kind ← nat
+  let el ← node
+  let hasCap ← bool
+  let cap ← if hasCap then (do let c ← node; pure (some c)) else pure none
+  let A ← atomsP
+  let m ← nat
+  let tbl ← many m (do
+    let v ← str; let a ← str; let b ← str
+    let nu ← nat; let us ← many nu str
+    pure (v, a, b, us))
+  let abs : String → String := fun v => match tbl.find? (fun e => e.1 == v) with | some e => e.2.1 | none => v
+  let absSet : String → String := fun v => match tbl.find? (fun e => e.1 == v) with | some e => e.2.2.1 | none => v
+  let setURLs : String → List String := fun v => match tbl.find? (fun e => e.1 == v) with | some e => e.2.2.2 | none => []
+  let type ← str
+  let id ← str
+  let urlsStr := fun (l : List String) => ",".intercalate (l.map hex)
+  match kind with
+  | 3 => pure s!"H={hex (String.ofList (imageOutput abs absSet false el))} T={hex (String.ofList (imageOutput abs absSet true el))} U={urlsStr (imageURLs abs absSet setURLs el)}"
+  | 4 =>
+    match cap with
+    | some c => pure s!"H={optHex (figureOutput A abs absSet false el c)} T={optHex (figureOutput A abs absSet true el c)} U={urlsStr (imageURLs abs absSet setURLs el)}"
+    | none => pure "error figure-without-caption"
+  | 5 => pure s!"H={hex (String.ofList (videoOutput abs absSet false el))} T={hex (String.ofList (videoOutput abs absSet true el))} U="
+  | 6 => pure s!"H={hex (String.ofList (embedOutput false type id el))} T={hex (String.ofList (embedOutput true type id el))} U="
+  | 7 => pure s!"H={optHex (tableOutput A abs absSet false el)} T={optHex (tableOutput A abs absSet true el)} U={urlsStr (tableImageURLs A abs absSet setURLs el)}"
+  | _ => pure "error unknown-kind"
+
 def outElP : P OutEl := do
   let c ← bool; let h ← str; let t ← str
   pure { content := c, html := h.toList, text := t.toList }
@@ -471,6 +507,7 @@ def dispatch (slice : String) : Option (P String) :=
   | "textrender" => some textrenderSlice
   | "docoutput" => some docoutputSlice
   | "dedupe" => some dedupeSlice
+  | "mediarender" => some mediarenderSlice
   | "docfilters" => some docfilters
   | "tableclass" => some tableclass
   | "rootdomain" => some rootdomain
